@@ -80,6 +80,11 @@ CLAIMED = {
    note="Trusted: process driver (ANSI stripped, exit compared as zero/non-zero), fd-1 capture in the harness. LINE:COL values are checked for presence and shape only (C15 owns them).",
    technique="TLA+ CLI contract + abstract machine, TLC exhaustive small programs, TLC trace validation of binary runs",
    ref="DESIGN.md section 5, C17"),
+ "C19": dict(
+   text="MCInterp.tla composes two instances of the reference machine, every variable indexed by the instance (frames, vectors, and the table of user-defined syntax), with no action of one instance mentioning the other. TLC explores every interleaving of two programs of <= 2 (3 thorough) forms over colliding names (define, set!, read, define-syntax of m and of cond, uses of both, a failing form) and checks non-interference (each instance's results equal those of its program alone, also as a prefix at every point); the model with one shared syntax table - the implementation as found - must be rejected. Every interleaving is replayed on two Interpreter values on one thread, with a third instance created, used and dropped at every point. Random program pairs from the C01/C05/C03 generators with macro definitions run under random interleavings, and each instance's recorded results are validated by MachineTrace.tla against the machine running that program alone.",
+   note="Trusted: renderer, projection. User macros are modelled abstractly ((kw ARG) rewrites to (list 'k) for that instance's definition k). Library state shared between instances is covered with C13 when built.",
+   technique="TLA+ two-instance composition with non-interference invariant checked by TLC over all interleavings, replay, TLC trace validation",
+   ref="DESIGN.md section 5, C19"),
 }
 PENDING_REASON = "no check is registered for this property yet: the specification module and binding for it are still being built (see DESIGN.md section 10); nothing is claimed"
 
